@@ -445,6 +445,20 @@ macro_rules! runner {
                             )?;
                             return Ok(());
                         }
+                        // representation independence: the result must be indistinguishable from the
+                        // canonically parsed value under the library's own equality, in both directions
+                        let canon = conv(&w);
+                        if !(v == canon) || !(canon == v) || (v != canon) {
+                            ctx.report(
+                                format!("C10|{tag}:{}|non-canonical-representation", s.form.name()),
+                                format!("step {i} ({:?}) on acc={macc:x}, x={x:x}: the result has the right canonical bytes ({w:x}) but does not compare equal to the same value parsed from bytes (non-canonical internal representation)", s.form),
+                            )?;
+                            return Ok(());
+                        }
+                        if w.is_zero() && v.inverse().is_some() {
+                            ctx.report(format!("C10|{tag}:{}|zero-has-inverse", s.form.name()), format!("step {i} ({:?}): the result is zero but inverse() returns a value", s.form))?;
+                            return Ok(());
+                        }
                         acc = v;
                         macc = w;
                     }
@@ -504,7 +518,7 @@ fn exp_limbs() -> BoxedStrategy<Vec<u64>> {
 pub fn step(forms: Vec<FForm>, m: N) -> impl Strategy<Value = Step> {
     let n = forms.len();
     let rel = prop_oneof![10 => Just(0u8), 1 => Just(1u8), 1 => Just(2u8), 2 => Just(3u8), 1 => Just(4u8)];
-    let rv = prop_oneof![Just(1u64), Just(u64::MAX), Just(1u64 << 63), any::<u64>()];
+    let rv = prop_oneof![Just(1u64), Just(u64::MAX), Just(1u64 << 63), Just(1u64 << 32), Just(0xffff_ffffu64), (1u64..0x1000_0000).prop_map(|k| k << 32), any::<u64>()];
     (any::<u16>(), gen::fe(&m), gen::fe(&m), exp_limbs(), any::<u8>(), any::<bool>(), rel, any::<u16>(), rv)
         .prop_map(move |(i, x, y, limbs, n_items, flag, rel, rk, rv)| Step { form: forms[pick(i, n)], x, y, limbs, n: n_items, flag, rel, rk, rv })
 }
